@@ -176,6 +176,10 @@ func (f *FieldCopyToGenerator) genZeroValue(fieldName string) func(*j.Group) {
 			)
 		} else if f.ZeroValue != "" {
 			g.Id("v.Null").Op("=").Id(f.i.WithType(f.ValueCastToType)).Parens(j.Id(fieldName)).Op("==").Id(f.ZeroValue)
+		} else if f.OneOfName != "" && !f.IsNullable && !f.IsMessage {
+			// A oneof branch held by value without a zero literal (a duration): an inactive
+			// branch reads as zero and must be null, like the scalar branches
+			g.Id("v.Null").Op("=").Id(f.i.WithType(f.ValueCastToType)).Parens(j.Id(fieldName)).Op("==").Lit(0)
 		} else {
 			g.Id("v.Null").Op("=").False()
 		}
